@@ -72,7 +72,7 @@ class Stage:
         def on_alarm(signum, frame):
             raise _CaseTimeout()
         if use_alarm:
-            old = signal.signal(signal.SIGALRM, on_alarm)
+            old = signal.signal(signal.SIGPROF, on_alarm)   # CPU time of this worker, not wall clock: a busy machine must not flip a verdict
         timeouts = 0
         try:
             for case in chunk:
@@ -80,10 +80,10 @@ class Stage:
                     break       # the code under test hangs: a few reported cases are enough, the check must end
                 try:
                     if use_alarm:
-                        signal.setitimer(signal.ITIMER_REAL, limit)
+                        signal.setitimer(signal.ITIMER_PROF, limit)
                     d = self.check(case)
                 except _CaseTimeout:
-                    d = 'did not terminate within %g s' % limit
+                    d = 'did not terminate within %g s of CPU time' % limit
                     timeouts += 1
                     with _TIMEOUTS.get_lock():
                         _TIMEOUTS.value += 1
@@ -94,12 +94,12 @@ class Stage:
                     d = 'check raised %s: %s' % (type(ex).__name__, str(ex)[:200])
                 finally:
                     if use_alarm:
-                        signal.setitimer(signal.ITIMER_REAL, 0)
+                        signal.setitimer(signal.ITIMER_PROF, 0)
                 if d is not None:
                     out.append((case, d))
         finally:
             if use_alarm:
-                signal.signal(signal.SIGALRM, old)
+                signal.signal(signal.SIGPROF, old)
         return out
 
     def run(self, tier, seed, known):
